@@ -4,6 +4,8 @@ use crate::{
     model::{
         Namespace,
         field::as_field_name,
+        node::RustNode,
+        structures::element::ElementType,
         helpers::{write_check_restrictions_footer, write_check_restrictions_header},
         structures::xml_name_to_rust_name,
     },
@@ -84,6 +86,23 @@ where
     Ok(())
 }
 
+/// The Rust type of the element a message part refers to: the element's struct or alias in the module of its
+/// namespace, or the built-in type itself for an element of a built-in type (an alias of a built-in type hides it
+/// from the yaserde derive macros).
+fn rust_type_of_part(part: &RustNode) -> WriterResult<String> {
+    if let Some(ElementType::RustType(rust_type)) = part.rust_type.try_as_element().map(|e| &e.element_type) {
+        if !rust_type.is_other() {
+            return Ok(rust_type.to_string());
+        }
+    }
+
+    let rust_name = xml_name_to_rust_name(part.rust_type.xml_name().ok_or(WriterError::InvalidReference)?);
+    Ok(match part.in_namespace.as_ref() {
+        Some(namespace) => format!("{}::{rust_name}", namespace.rust_mod_name),
+        None => rust_name,
+    })
+}
+
 fn write_soap_operation<W>(
     writer: &mut W,
     envelope_name: &str,
@@ -115,7 +134,7 @@ where
         writeln!(writer, "pub struct {rust_name} {{")?;
         for (part_name, header) in &soap_operation.headers {
             let field_name = as_field_name(part_name);
-            let rust_type = xml_name_to_rust_name(header.rust_type.xml_name().ok_or(WriterError::InvalidReference)?);
+            let rust_type = rust_type_of_part(header)?;
 
             if let Some(namespace) = header.in_namespace.as_ref() {
                 let abbreviation = namespace.abbreviation.as_str();
@@ -128,12 +147,7 @@ where
             }
 
             // todo: we should check if the "mustUnderstand" == 1 to make the field required
-            if let Some(namespace) = header.in_namespace.as_ref() {
-                let mod_name = namespace.rust_mod_name.as_str();
-                writeln!(writer, "    pub {field_name}: Option<{mod_name}::{rust_type}>,",)?;
-            } else {
-                writeln!(writer, "    pub {field_name}: Option<{rust_type}>",)?;
-            }
+            writeln!(writer, "    pub {field_name}: Option<{rust_type}>,",)?;
         }
         writeln!(writer, "}}")?;
 
@@ -157,7 +171,7 @@ where
         .ok_or(WriterError::InvalidReference)?;
     let body_field_name = as_field_name(body);
     let xml_name = body;
-    let body = xml_name_to_rust_name(body);
+    let body = rust_type_of_part(&soap_operation.body)?;
 
     writeln!(writer, "#[derive(Debug, Default, YaSerialize, YaDeserialize)]")?;
 
@@ -171,13 +185,12 @@ where
     let rust_name = format!("{envelope_name}Body");
     writeln!(writer, "pub struct {rust_name} {{")?;
     if let Some(namespace) = soap_operation.body.in_namespace.as_ref() {
-        let mod_name = namespace.rust_mod_name.as_str();
         let abbreviation = namespace.abbreviation.as_str();
         writeln!(
             writer,
             "    #[yaserde(prefix = \"{abbreviation}\", rename = \"{xml_name}\")]"
         )?;
-        writeln!(writer, "    pub {body_field_name}: {mod_name}::{body},",)?;
+        writeln!(writer, "    pub {body_field_name}: {body},",)?;
     } else {
         writeln!(writer, "    #[yaserde(rename = \"{xml_name}\")]")?;
         writeln!(writer, "    pub {body_field_name}: {body},")?;
